@@ -107,6 +107,14 @@ pub fn run_case(entry: &str, bytes: &[u8], env: &Env) -> bool {
 					}
 					ok &= l.to_features().is_ok();
 				}
+				// the property stages of the pipeline decode the tags of every feature again
+				for stage in 0..2 {
+					if let Ok(mut t2) = VectorTile::from_blob(&Blob::from(bytes)) {
+						for l in t2.layers.iter_mut() {
+							ok &= if stage == 0 { l.filter_map_properties(Some).is_ok() } else { l.map_properties(|p| p).is_ok() };
+						}
+					}
+				}
 				ok &= t.to_blob().is_ok();
 				ok
 			}
@@ -402,6 +410,19 @@ pub fn vt_inner(f: &mut dyn FnMut(&[u8])) {
 		f(&out);
 	};
 	byte_mutations(&ti, false, &mut emit_ti);
+	// whole fields of every entry (offset u64, length u32) at the edges of their ranges
+	for e in 0..ti.len() / 12 {
+		for off in [u64::MAX, u64::MAX - 10, u64::MAX / 2, 1u64 << 63, (1u64 << 32) - 1] {
+			for len in [None, Some(u32::MAX), Some(0u32)] {
+				let mut m = ti.clone();
+				m[e * 12..e * 12 + 8].copy_from_slice(&off.to_be_bytes());
+				if let Some(l) = len {
+					m[e * 12 + 8..e * 12 + 12].copy_from_slice(&l.to_be_bytes());
+				}
+				emit_ti(&m);
+			}
+		}
+	}
 	emit_ti(&[]);
 	emit_ti(&ti[..12.min(ti.len())]);
 	let mut long = ti.clone();
@@ -509,6 +530,12 @@ fn mvt_inner(f: &mut dyn FnMut(&[u8])) {
 					f(&mvt::encode_tile(&[layer("a", &[], vec![], vec![feat(None, &[], gtype, geom.clone())])]));
 				}
 			}
+		}
+	}
+	// coordinate deltas that use the full 64 bits of a varint: running sums at the edge of the integer range
+	for steps in [vec![(i64::MAX, 0), (i64::MAX, 0)], vec![(0, i64::MAX), (0, i64::MAX)], vec![(i64::MIN, 0), (-1, 0)], vec![(0, i64::MIN), (0, -1)], vec![(i64::MAX, i64::MAX), (1, 1)], vec![(i64::MIN, i64::MIN), (i64::MIN, i64::MIN)], vec![(i64::MAX, i64::MIN)]] {
+		for gtype in [1u64, 2, 3] {
+			f(&mvt::encode_tile_wide_deltas(gtype, &steps));
 		}
 	}
 	// huge extent / version / tag indices / ids in a well-framed tile
@@ -782,6 +809,22 @@ pub fn for_each_case(entry: &str, thorough: bool, f: &mut dyn FnMut(&[u8])) {
 				"DELETE FROM tiles",
 				"UPDATE tiles SET zoom_level=40",
 				"UPDATE tiles SET zoom_level=-1",
+				"UPDATE tiles SET zoom_level=32",
+				"UPDATE tiles SET zoom_level=255",
+				"UPDATE tiles SET zoom_level=256",
+				"UPDATE tiles SET zoom_level=2147483647",
+				"UPDATE tiles SET zoom_level=4294967295",
+				"UPDATE tiles SET zoom_level=9223372036854775807",
+				"UPDATE tiles SET zoom_level=-9223372036854775808",
+				"UPDATE tiles SET zoom_level=0; UPDATE tiles SET zoom_level=2147483647 WHERE rowid=(SELECT MAX(rowid) FROM tiles)",
+				"UPDATE tiles SET zoom_level=0; UPDATE tiles SET zoom_level=-2147483648 WHERE rowid=(SELECT MAX(rowid) FROM tiles)",
+				"UPDATE tiles SET zoom_level=3; UPDATE tiles SET zoom_level=200 WHERE rowid=(SELECT MAX(rowid) FROM tiles)",
+				"UPDATE tiles SET tile_column=4294967295",
+				"UPDATE tiles SET tile_row=4294967295",
+				"UPDATE tiles SET tile_column=2147483647, tile_row=2147483647",
+				"UPDATE tiles SET tile_column=9223372036854775807",
+				"UPDATE tiles SET tile_row=-9223372036854775808",
+				"UPDATE tiles SET tile_column=8 WHERE rowid=1",
 				"UPDATE tiles SET tile_column=-5",
 				"UPDATE tiles SET tile_column=4294967296",
 				"UPDATE tiles SET tile_row=99999",
@@ -823,7 +866,7 @@ pub fn for_each_case(entry: &str, thorough: bool, f: &mut dyn FnMut(&[u8])) {
 				f(&v);
 			};
 			emit(&base, f);
-			let odd: Vec<&[u8]> = vec![b"3/1/x.png", b"3/x/2.png", b"x/1/2.png", b"3/1/2", b"3/1/.png", b"3/1/2.png.gz", b"3/1/2.jpg", b"256/1/1.png", b"3/4294967296/1.png", b"3/1/4294967296.png", b"3/1/\xff\xfe.png", b"3/\xff/2.png", b"\xff/1/2.png", b"\xff\xfe", b"3/1/2.png/x", b"3/file", b"file", b"40/1/1.png", b"3/1/", b"3/", b"meta.json", b"tiles.json.gz", b"tiles.json.br", b"metadata.json", b"3/1/2.PNG", b"3/1/-1.png", b"3/1/1e2.png", b"3/1/ 2.png"];
+			let odd: Vec<&[u8]> = vec![b"3/1/x.png", b"3/x/2.png", b"x/1/2.png", b"3/1/2", b"3/1/.png", b"3/1/2.png.gz", b"3/1/2.jpg", b"256/1/1.png", b"3/4294967296/1.png", b"3/1/4294967296.png", b"3/1/4294967295.png", b"3/4294967295/1.png", b"0/5/7.png", b"3/8/1.png", b"3/1/8.png", b"31/4294967295/4294967295.png", b"31/2147483648/0.png", b"255/1/1.png", b"32/1/1.png", b"3/1/\xff\xfe.png", b"3/\xff/2.png", b"\xff/1/2.png", b"\xff\xfe", b"3/1/2.png/x", b"3/file", b"file", b"40/1/1.png", b"3/1/", b"3/", b"meta.json", b"tiles.json.gz", b"tiles.json.br", b"metadata.json", b"3/1/2.PNG", b"3/1/-1.png", b"3/1/1e2.png", b"3/1/ 2.png"];
 			for o in &odd {
 				let mut e = base.clone();
 				e.push((o, b"data"));
